@@ -6,6 +6,7 @@ mod gen;
 mod kinds;
 mod pipeline;
 mod refsem;
+mod rewrite;
 mod space;
 mod textmodel;
 mod validate;
